@@ -2809,7 +2809,8 @@ def rule_percent_text(chk):
     from decimal import Decimal
     ev = Ev()
     idx = ev.idx
-    chk.rule('C03.percent-text', 'the digit parser values the text the percentage parser hands over like the bare literal', floor=6,
+    # floor 0: when the factory does not build a BasePercentageParser at all, C03.percent is the rule that reports it
+    chk.rule('C03.percent-text', 'the digit parser values the text the percentage parser hands over like the bare literal', floor=0,
              control=True)
     regs = number_registrations(ev)
     bnp = idx.cls('recognizers_number.number.parsers.BaseNumberParser')
@@ -2858,7 +2859,7 @@ def rule_percent_text(chk):
                   'it: %s - the grouping heuristic measures the distance to the END of the text' % (r.culture, hk.name, '; '.join(bad[:5])),
                   hline)
     if not seen:
-        raise AnalysisError('no percentage registration served by BasePercentageParser found')
+        chk.observe('C03.percent-text: no percentage registration is served by BasePercentageParser (see C03.percent)')
     ctl = ast.parse("class P(BaseNumberParser):\n    def parse(self, source):\n        number_text = source.text\n"
                     "        if isinstance(source.data, list):\n            number_text = source.data[0]\n"
                     "        result = super().parse(source)\n        return result\n").body[0]
